@@ -12,12 +12,32 @@ func c10monitor(cw *caseWriter) func(tag string, in, obs []uint64) {
 		parts := nsSplit(obs)
 		evs := nsEvents(in)
 		var prev *nsState
+		// images NewRaft must refuse (not written by a server under this configuration): RestoreCommittedLogs over a store
+		// without commit tracking (ErrIncompatibleLogStore); snapshots listed but none of them opens
+		mustErr := c.rc != 0 && c.track == 0
+		if len(c.snaps) > 0 {
+			usable := false
+			for _, s := range c.snaps {
+				usable = usable || s.ok
+			}
+			mustErr = mustErr || !usable
+		}
+		everUp := false
 		check := func(i int, boot []uint64) *nsState {
 			if len(boot) == 0 {
 				return nil
 			}
+			if boot[0] == 1 {
+				everUp = true
+				if mustErr && i == 0 {
+					cw.monitor("C10", tag, "newraft-accepted-an-image-it-must-refuse", "boot: RestoreCommittedLogs=%d commit-tracking store=%d, %d snapshots listed (none usable: %v) and NewRaft returned a server", c.rc, c.track, len(c.snaps), len(c.snaps) > 0)
+				}
+			}
 			switch boot[0] {
 			case 2:
+				if mustErr && !everUp {
+					return nil // the refusal the configuration / image calls for; the server never ran, its image never changed
+				}
 				cw.monitor("C10", tag, "newraft-returns-error", "restart %d: NewRaft returned an error on an image the server wrote itself", i)
 				return nil
 			case 3:
@@ -169,6 +189,28 @@ func c10gen(cw *caseWriter, tier string, r *rng) {
 			return [][]uint64{evAppend(3, 3, 3, 1, 1, e1, 4, 0, nil), evInstall(3, 3, 3, 6, 3, cfg4, 4, []uint64{302, 303}, true, 0, nil),
 				evInstall(3, 3, 3, 6, 3, cfg4, 4, []uint64{302, 303, 305, 306}, false, 0, nil)}
 		}, []int{1, 0, 3}},
+		{"install-then-take-snapshot", func(uint64) [][]uint64 {
+			// the FSM goroutine's (lastIndex, lastTerm) after a restore is only visible through the snapshot taken next
+			return [][]uint64{evAppend(3, 3, 3, 1, 1, e1, 4, 0, nil), evInstall(3, 3, 3, 6, 3, cfg4, 4, []uint64{302, 303, 305, 306}, false, 0, nil),
+				evSnapshot(0, nil), evAppend(3, 3, 3, 6, 3, [][4]uint64{mk(7, 3, 0, 307)}, 7, 0, nil), evSnapshot(0, nil)}
+		}, []int{1, 3, 2, 1, 2}},
+		{"noop-only-commit-then-take-snapshot", func(uint64) [][]uint64 {
+			// the commit index moves over a no-op only: nothing reaches the FSM goroutine, its last index stays at 2, lastApplied is 3;
+			// then a command between two no-ops: FSM index 5, lastApplied 6. (No barriers here: a batch holding only a barrier moves the
+			// FSM goroutine's index without any FSM call the harness could wait for, and the snapshot request would race it.)
+			return [][]uint64{evAppend(3, 3, 3, 1, 1, [][4]uint64{mk(2, 3, 0, 302), mk(3, 3, 1, 0)}, 2, 0, nil), evAppend(3, 3, 3, 3, 3, nil, 3, 0, nil),
+				evSnapshot(0, nil), evAppend(3, 3, 3, 3, 3, [][4]uint64{mk(4, 3, 1, 0), mk(5, 3, 0, 305), mk(6, 3, 1, 0)}, 6, 0, nil), evSnapshot(0, nil)}
+		}, []int{1, 0, 2, 1, 2}},
+		{"take-snapshot-compaction-fails", func(uint64) [][]uint64 {
+			// Create and Close succeed, the DeleteRange of compactLogs fails: the snapshot is durable and current, the error is reported
+			// (no crash cuts on the events that carry failure bits)
+			return [][]uint64{evAppend(3, 3, 3, 1, 1, e1, 4, 0, nil), evSnapshot(0, []bool{false, false, true}), evAppend(3, 3, 3, 4, 3, e2, 6, 0, nil),
+				evSnapshot(0, []bool{false, false, true}), evSnapshot(0, nil), evAppend(3, 3, 3, 6, 3, [][4]uint64{mk(7, 3, 0, 307)}, 7, 0, nil), evSnapshot(0, nil)}
+		}, []int{1, 0, 1, 0, 2, 1, 2}},
+		{"append-leadercommit-beyond-entries", func(uint64) [][]uint64 {
+			// LeaderCommit above the last entry sent: the staged (durable) commit index and the commit index stop at the last new entry
+			return [][]uint64{evAppend(3, 3, 3, 1, 1, e1, 9, 0, nil), evAppend(3, 3, 3, 4, 3, e2, 9, 0, nil), evAppend(3, 3, 3, 6, 3, nil, 9, 0, nil)}
+		}, []int{1, 1, 0}},
 		{"install-behind-log", func(uint64) [][]uint64 {
 			return [][]uint64{evAppend(3, 3, 3, 1, 1, append(append([][4]uint64{}, e1...), e2...), 3, 0, nil),
 				evInstall(3, 3, 3, 4, 3, cfg4, 4, []uint64{302, 303}, false, 0, nil), evAppend(3, 3, 3, 6, 3, nil, 6, 0, nil)}
@@ -238,7 +280,124 @@ func c10gen(cw *caseWriter, tier string, r *rng) {
 			}
 		}
 	}
+	m += c10images2(cw, tier, tabs)
 	cw.stat("c10_image_cases", m)
+}
+
+// more start-up images: what NewRaft must refuse, the snapshot listing order, the FSM queue boundary of
+// RestoreCommittedLogs, a durable commit index at or above the last configuration entry
+func c10images2(cw *caseWriter, tier string, tabs [][]srv) int {
+	mk := func(idx, term, ty, id uint64) [4]uint64 { return [4]uint64{idx, term, ty, id} }
+	m := 0
+	run := func(g *nsGen, evs ...[]uint64) {
+		g.events = evs
+		nsRun(cw, cw.tag("j"), g.encode(), func(tag string, in, obs []uint64) {
+			c10monitor(cw)(tag, in, obs)
+			c11monitor(cw)(tag, in, obs)
+		})
+		m++
+	}
+	base := func(track, rc, maxapp uint64, nent uint64) *nsGen {
+		g := &nsGen{self: 1, track: track, rc: rc, trailing: 100, maxapp: maxapp, cfgtab: tabs}
+		g.term = 3
+		g.entries = [][4]uint64{mk(1, 1, 5, 9000)}
+		for i := uint64(2); i <= nent; i++ {
+			g.entries = append(g.entries, mk(i, 2, 0, 200+i))
+		}
+		return g
+	}
+	probe := [][]uint64{evDecision(), evVote(9, 2, 2, 20, 8, false, 0, nil), evRestart(), evDecision()}
+	// (a) RestoreCommittedLogs over a store without commit tracking: ErrIncompatibleLogStore (and the other three combinations start)
+	for _, tr := range [][2]uint64{{0, 1}, {1, 1}, {1, 0}, {0, 0}} {
+		for _, nent := range []uint64{1, 4} {
+			for _, mono := range []uint64{0, 1} {
+				g := base(tr[0], tr[1], 4, nent)
+				g.mono = mono
+				g.pcommit = nent - 1
+				if mono == 1 {
+					g.snaps = []nsSnap{{idx: 1, term: 1, cfg: cfgSAB, cfgidx: 1, data: nil, ok: true}}
+				}
+				run(g, probe...)
+			}
+		}
+	}
+	// (b) snapshots listed, none of them usable: NewRaft fails; one usable among unusable ones: that one, whatever its rank
+	sn := func(idx, term uint64, data []uint64, ok bool) nsSnap {
+		return nsSnap{idx: idx, term: term, cfg: cfgSAB, cfgidx: 1, data: data, ok: ok}
+	}
+	for _, fl := range [][2]uint64{{0, 0}, {1, 1}} {
+		for _, snaps := range [][]nsSnap{
+			{sn(2, 2, []uint64{202}, false)},
+			{sn(2, 2, []uint64{202}, false), sn(3, 2, []uint64{202, 203}, false)},
+			{sn(2, 2, []uint64{202}, true), sn(3, 2, []uint64{202, 203}, false), sn(4, 2, []uint64{202, 203, 204}, false)},
+			{sn(2, 2, []uint64{202}, false), sn(3, 2, []uint64{202, 203}, true), sn(4, 2, []uint64{202, 203, 204}, false)},
+			// (c) listing order: term first, then index, then creation (later first)
+			{sn(2, 2, []uint64{11}, true), sn(2, 2, []uint64{11, 12}, true)},  // same (term, index), different content: the later one
+			{sn(2, 2, []uint64{11, 12}, true), sn(2, 2, []uint64{11}, true)},  // ... in the other creation order
+			{sn(2, 2, []uint64{11}, true), sn(2, 2, []uint64{11, 12}, false)}, // the later one unusable: the earlier one
+			{sn(5, 2, []uint64{11}, true), sn(3, 3, []uint64{11, 12}, true)},  // term order and index order disagree: term wins
+			{sn(3, 3, []uint64{11, 12}, true), sn(5, 2, []uint64{11}, true)},  // ... in the other creation order
+			{sn(5, 2, []uint64{11}, true), sn(3, 3, []uint64{11, 12}, false)}, // the higher term unusable: fall back to the higher index
+			{sn(4, 2, []uint64{11}, true), sn(5, 2, []uint64{12}, true), sn(3, 3, []uint64{13}, true), sn(3, 3, []uint64{14}, true)},
+		} {
+			g := base(fl[0], fl[1], 4, 5)
+			g.pcommit = 4
+			g.snaps = snaps
+			run(g, evDecision(), evSnapshot(0, nil), evRestart(), evDecision())
+		}
+	}
+	// (d) RestoreCommittedLogs hands the committed entries to the FSM queue (capacity 128) before the FSM goroutine exists:
+	// exactly 128 batches start, 129 block for ever (finding F4b; one boot only: each blocked NewRaft costs the 2 s watchdog)
+	type qc struct{ maxapp, handed uint64 }
+	qcs := []qc{{1, 127}, {1, 128}, {1, 129}, {4, 509}, {4, 512}}
+	if tier != "quick" {
+		qcs = append(qcs, qc{4, 513}, qc{2, 256}, qc{2, 257}, qc{64, 128 * 64}, qc{64, 128*64 + 1})
+	}
+	for _, q := range qcs {
+		// entries 1..handed are all handed over (the configuration entry and commands), one uncommitted entry follows
+		g := base(1, 1, q.maxapp, q.handed+1)
+		g.pcommit = q.handed
+		if (q.handed+q.maxapp-1)/q.maxapp > 128 {
+			run(g, evDecision())
+		} else {
+			run(g, evDecision(), evRestart(), evDecision())
+		}
+	}
+	// ... with a snapshot: only what lies above it is replayed; no-ops are not handed over
+	for _, q := range []qc{{1, 128}, {1, 129}} {
+		if q.handed == 129 && tier == "quick" {
+			continue
+		}
+		g := base(1, 1, 1, 2)
+		g.snaps = []nsSnap{sn(2, 2, []uint64{202}, true)}
+		for i := uint64(3); i < 3+q.handed; i++ {
+			g.entries = append(g.entries, mk(i, 2, 0, 200+i), mk(1000+i, 2, 1, 0))
+		}
+		// (indices must be contiguous for processLogs: renumber)
+		es := g.entries[:2]
+		for k, e := range g.entries[2:] {
+			e[0] = uint64(3 + k)
+			es = append(es, e)
+		}
+		g.entries = es
+		g.pcommit = uint64(len(es))
+		run(g, evDecision())
+	}
+	// (e) the durable commit index is at / above the last configuration entry: NewRaft sets the commit index but leaves the
+	// configuration "latest, not committed"; a heartbeat whose LeaderCommit is above the commit index but which vouches for
+	// nothing beyond it (previous entry = commit index) must not re-run the commit step
+	for _, cfgAt := range []uint64{1, 3} {
+		for _, pc := range []uint64{2, 3, 4} {
+			g := base(1, 1, 4, 4)
+			g.entries[cfgAt-1] = mk(cfgAt, g.entries[cfgAt-1][1], 5, 9000+b2u(cfgAt > 1))
+			g.entries[0] = mk(1, 1, 5, 9000)
+			g.pcommit = pc
+			lt := uint64(2)
+			run(g, evAppend(3, 3, 3, pc, lt, nil, pc+1, 0, nil), evSnapshot(0, nil),
+				evAppend(3, 3, 3, 4, lt, nil, 4, 0, nil), evAppend(3, 3, 3, 4, lt, [][4]uint64{mk(5, 3, 0, 305)}, 5, 0, nil), evSnapshot(0, nil), evRestart(), evDecision())
+		}
+	}
+	return m
 }
 
 func runC10(cw *caseWriter, tier string, seed uint64) {
